@@ -423,7 +423,9 @@ class XMIResource(Resource):
             feat_name = feat._name
             value = obj.__getattribute__(feat_name)
             if value is None:
-                if serialize_default:
+                # None is written when it differs from what an absent
+                # feature reads as after load (its default value)
+                if serialize_default or feat.get_default_value() is not None:
                     node.append(self._build_none_node(feat_name))
                 continue
             if hasattr(feat._eType, 'eType') and feat._eType.eType is dict:
